@@ -232,6 +232,10 @@ def handleTypes (cmd : String) (a : List String) : Option String :=
       -- the worker takes a &str: invalid UTF-8 never reaches the parser
       some (fmtOutcome (hllFromHex inp) fun r => s!"ok {bytesToStr (hllToHex r)} {hllEstimate r}")
     | _ => none
+  | "ADR", [a] => do
+    match parseAddr (← unhex a) with
+    | some (k, au, d) => some s!"ok {k} {toHex au} {toHex d}"
+    | none => some "err"
   | "KND", [lo, hi] => do some (toString (kndDigest (← lo.toNat?) (← hi.toNat?)))
   | "CPT", [lo, hi] => do some (toString (cptDigest (← lo.toNat?) (← hi.toNat?)))
   | "CAN", a => do
